@@ -2,7 +2,6 @@ package c07
 
 import (
 	"bytes"
-	"crypto/elliptic"
 	"fmt"
 	"math/big"
 
@@ -48,8 +47,9 @@ func neighbour(kp *keyPair) *keyPair {
 		}
 		px, py = s.X, s.Y
 	} else {
-		p := elliptic.P256().Params()
-		px, py = elliptic.P256().Add(kp.px, kp.py, p.Gx, p.Gy)
+		lc := enc.Elliptic(kp.cv)
+		p := lc.Params()
+		px, py = lc.Add(kp.px, kp.py, p.Gx, p.Gy)
 		if px.Sign() == 0 && py.Sign() == 0 {
 			return nil
 		}
@@ -80,9 +80,9 @@ func pickKey(c *mon.Case, cv enc.Curve, kind string) *big.Int {
 		return big.NewInt(2)
 	case "d=n-2":
 		return new(big.Int).Sub(n, big.NewInt(2))
-	case "d=2^255+r":
+	case "d=2^255+r": // top bit of the order's width (255 on the 256-bit curves)
 		v := new(big.Int).SetBytes(c.R.Bytes(16))
-		return v.SetBit(v, 255, 1)
+		return v.SetBit(v, n.BitLen()-1, 1)
 	case "d<2^64":
 		return new(big.Int).Add(new(big.Int).SetUint64(c.R.Uint64()), big.NewInt(3))
 	case "d0":
@@ -108,12 +108,13 @@ func pickK(c *mon.Case, cv enc.Curve, kind string) (k *big.Int, skipped [][]byte
 		return new(big.Int).Add(new(big.Int).SetUint64(c.R.Uint64()), big.NewInt(1)), nil
 	case "k=2^255+r":
 		v := new(big.Int).SetBytes(c.R.Bytes(16))
-		return v.SetBit(v, 255, 1), nil
+		return v.SetBit(v, n.BitLen()-1, 1), nil
 	case "retry":
 		// candidates >= n are not scalars: all ones, n itself, n+1
-		return randScalar(c.R, n), [][]byte{bytes.Repeat([]byte{0xff}, 32), b32(n), b32(new(big.Int).Add(n, big.NewInt(1)))}
+		nb := (n.BitLen() + 7) / 8
+		return randScalar(c.R, n), [][]byte{bytes.Repeat([]byte{0xff}, nb), kBlock(cv, n), kBlock(cv, new(big.Int).Add(n, big.NewInt(1)))}
 	case "retry0":
-		return randScalar(c.R, n), [][]byte{make([]byte, 32)}
+		return randScalar(c.R, n), [][]byte{make([]byte, (n.BitLen()+7)/8)}
 	}
 	return randScalar(c.R, n), nil
 }
@@ -179,7 +180,7 @@ func runRoundTrip(c *mon.Case, p *rtParams) {
 			ctx.HarnessError("reference serialisation %s does not open under the reference (case %d)", s.name, c.N)
 		}
 	}
-	blocks := append(append([][]byte{}, p.skipped...), b32(p.k))
+	blocks := append(append([][]byte{}, p.skipped...), kBlock(cv, p.k))
 
 	// library encryption, every variant, same scripted k
 	type cts struct {
@@ -212,41 +213,8 @@ func runRoundTrip(c *mon.Case, p *rtParams) {
 			continue
 		}
 		c.Event("encryptions", 1)
-		t, perr := enc.Parse(cv, got, ev.layout)
-		if perr != nil {
-			c.Detail("ciphertext", got)
-			c.Fail("mismatch", "%s: output is not a well-formed %v ciphertext", ev.name, ev.layout)
+		if !judgeEnc(c, o, ev, ct, p.k, got, p.m) {
 			continue
-		}
-		if t.X1.Cmp(ct.X1) == 0 && t.Y1.Cmp(ct.Y1) == 0 {
-			// the library used the scripted k: the ciphertext is determined
-			c.Event("compare", 1)
-			okb := false
-			var want []byte
-			if ev.layout == enc.ASN1 {
-				want = ct.ASN1()
-				okb = bytes.Equal(got, want)
-			} else {
-				for _, f := range ev.forms {
-					w := ct.Plain(enc.Order(ev.layout), f)
-					if want == nil {
-						want = w
-					}
-					okb = okb || bytes.Equal(got, w)
-				}
-			}
-			if okb {
-				c.Event("ciphertext_equals_reference", 1)
-			} else {
-				c.Eq(ev.name+" with k="+fmt.Sprintf("%x", p.k), got, want)
-			}
-		} else {
-			// other derivation of k from the random bytes: judge by the reference decryption alone
-			c.Event("library_used_other_k", 1)
-			if m2, e := o.open(t); e != nil || !bytes.Equal(m2, p.m) {
-				c.Detail("ciphertext", got)
-				c.Fail("mismatch", "%s: the reference decryption does not open the library's ciphertext to the message", ev.name)
-			}
 		}
 		add(ev.name, got)
 	}
@@ -305,32 +273,83 @@ func roundtrip(x *mon.Ctx, cv enc.Curve) {
 					continue
 				}
 				c.Class("%s/len=%s/%s/key:%s/k:%s", name, lenClass(n), content, keyKind, kKind)
-				kp := newKey(cv, pickKey(c, cv, keyKind))
-				k, skipped := pickK(c, cv, kKind)
-				_, _, x2, y2, err := enc.Shared(cv, k, kp.px, kp.py)
-				for try := 0; err == nil && allZero(enc.Mask(cv, x2, y2, n)) && try < 8; try++ {
-					// (probability 2^-8n) the mask of this k is all zero: the standard restarts,
-					// so the library has to skip this block of the stream too
-					c.Event("zero_mask_restarts", 1)
-					skipped = append(skipped, b32(k))
-					k = randScalar(c.R, cv.N())
-					_, _, x2, y2, err = enc.Shared(cv, k, kp.px, kp.py)
-				}
-				if err != nil {
-					c.Inconclusive("no shared point: %v", err)
-					c.End()
-					continue
-				}
-				m := pickMsg(c, content, n, enc.Mask(cv, x2, y2, n))
-				runRoundTrip(c, &rtParams{kp: kp, k: k, skipped: skipped, m: m})
-				if zero {
-					c.Event("all_zero_C2_ciphertexts", 1)
-				}
+				rtCase(c, cv, n, content, keyKind, kKind, zero)
 				c.End()
 			}
 		}
 	}
 	special(x, cv)
+}
+
+// judgeEnc judges one ciphertext got that the library made for the message m under the
+// variant ev while the scripted random source offered k: if the library used k (its C1 is
+// the reference's) the ciphertext is determined and must equal the reference ciphertext ct
+// in (one of) the requested serialisation(s); otherwise the reference decryption must open
+// it to m. It returns false when got is not even a well-formed ciphertext of the layout.
+func judgeEnc(c *mon.Case, o *oracle, ev *encVariant, ct *enc.Ciphertext, k *big.Int, got, m []byte) bool {
+	cv := o.kp.cv
+	t, perr := enc.Parse(cv, got, ev.layout)
+	if perr != nil {
+		c.Detail("ciphertext", got)
+		c.Fail("mismatch", "%s: output is not a well-formed %v ciphertext", ev.name, ev.layout)
+		return false
+	}
+	if t.X1.Cmp(ct.X1) == 0 && t.Y1.Cmp(ct.Y1) == 0 {
+		// the library used the scripted k: the ciphertext is determined
+		c.Event("compare", 1)
+		okb := false
+		var want []byte
+		if ev.layout == enc.ASN1 {
+			want = ct.ASN1()
+			okb = bytes.Equal(got, want)
+		} else {
+			for _, f := range ev.forms {
+				w := ct.Plain(enc.Order(ev.layout), f)
+				if want == nil {
+					want = w
+				}
+				okb = okb || bytes.Equal(got, w)
+			}
+		}
+		if okb {
+			c.Event("ciphertext_equals_reference", 1)
+		} else {
+			c.Eq(ev.name+" with k="+fmt.Sprintf("%x", k), got, want)
+		}
+	} else {
+		// other derivation of k from the random bytes: judge by the reference decryption alone
+		c.Event("library_used_other_k", 1)
+		if m2, e := o.open(t); e != nil || !bytes.Equal(m2, m) {
+			c.Detail("ciphertext", got)
+			c.Fail("mismatch", "%s: the reference decryption does not open the library's ciphertext to the message", ev.name)
+		}
+	}
+	return true
+}
+
+// rtCase is one round-trip case: key, ephemeral scalar and message of the given kinds
+// (zero: the message equals the mask, so that C2 is all zero), then runRoundTrip.
+func rtCase(c *mon.Case, cv enc.Curve, n int, content, keyKind, kKind string, zero bool) {
+	kp := newKey(cv, pickKey(c, cv, keyKind))
+	k, skipped := pickK(c, cv, kKind)
+	_, _, x2, y2, err := enc.Shared(cv, k, kp.px, kp.py)
+	for try := 0; err == nil && allZero(enc.Mask(cv, x2, y2, n)) && try < 8; try++ {
+		// (probability 2^-8n) the mask of this k is all zero: the standard restarts,
+		// so the library has to skip this block of the stream too
+		c.Event("zero_mask_restarts", 1)
+		skipped = append(skipped, kBlock(cv, k))
+		k = randScalar(c.R, cv.N())
+		_, _, x2, y2, err = enc.Shared(cv, k, kp.px, kp.py)
+	}
+	if err != nil {
+		c.Inconclusive("no shared point: %v", err)
+		return
+	}
+	m := pickMsg(c, content, n, enc.Mask(cv, x2, y2, n))
+	runRoundTrip(c, &rtParams{kp: kp, k: k, skipped: skipped, m: m})
+	if zero {
+		c.Event("all_zero_C2_ciphertexts", 1)
+	}
 }
 
 // special enumerates the constructed corner cases: coordinates with leading zero
@@ -415,7 +434,7 @@ func special(x *mon.Ctx, cv enc.Curve) {
 			case "encrypt-restarts":
 				// the library has to discard kbad and use the next scalar of the stream
 				kgood := randScalar(c.R, cv.N())
-				runRoundTrip(c, &rtParams{kp: kp, k: kgood, skipped: [][]byte{b32(kbad)}, m: m})
+				runRoundTrip(c, &rtParams{kp: kp, k: kgood, skipped: [][]byte{kBlock(cv, kbad)}, m: m})
 				c.Event("zero_mask_restarts", 1)
 			case "decrypt-refuses":
 				// the would-be ciphertext for kbad: C2 = m xor 0, C3 = Hash(x2||m||y2). Step B4 refuses it.
@@ -442,6 +461,62 @@ func special(x *mon.Ctx, cv enc.Curve) {
 				}
 			}
 			c.End()
+		}
+	}
+
+	// a run of scalars with an all-zero mask: step A5 restarts every time. A library may give up after some
+	// number of restarts of its own choosing (an error is no ciphertext); what it must not do is loop without
+	// bound, panic, or hand out a ciphertext that does not open to the message.
+	if len(sp.t1z) > 0 {
+		for _, nbad := range []int{2, 99, 100, 101, 130} {
+			for _, vi := range []int{0, 4, 8} {
+				ev := &encVariants[vi]
+				c := x.Begin("special curve=%s run of %d scalars with an all-zero 1-byte mask, then a good one, %s", name, nbad, ev.name)
+				if c == nil {
+					continue
+				}
+				c.Class("%s/special/zero-mask-run/%d", name, nbad)
+				kp := newKey(cv, d0(cv))
+				for _, kv := range sp.t1z {
+					if _, _, x2, y2, err := enc.Shared(cv, big.NewInt(kv), kp.px, kp.py); err != nil || !allZero(enc.Mask(cv, x2, y2, 1)) {
+						x.HarnessError("special scalar k=%d on %s does not give an all-zero 1-byte mask under the reference", kv, name)
+					}
+				}
+				var blocks [][]byte
+				for i := 0; i < nbad; i++ {
+					blocks = append(blocks, kBlock(cv, big.NewInt(sp.t1z[(i+int(c.N))%len(sp.t1z)])))
+				}
+				m := c.R.Bytes(1)
+				kgood, _, _ := drawK(c, kp, 1)
+				ct, err := enc.Encrypt(cv, kgood, kp.px, kp.py, m)
+				if err != nil {
+					x.HarnessError("reference encryption failed for a scalar with a non-zero mask: %v", err)
+				}
+				o := newOracle(kp)
+				o.know(ct)
+				src := script(c, append(blocks, kBlock(cv, kgood))...)
+				var got []byte
+				if c.Call(ev.name, func() { got, err = ev.call(src, &kp.priv.PublicKey, append([]byte{}, m...)) }) {
+					switch {
+					case src.Budget:
+						c.Fail("hang", "%s: unbounded restart: more than %d random bytes consumed after a run of %d zero-mask scalars", ev.name, src.MaxBytes, nbad)
+					case err != nil && nbad <= 2:
+						c.Fail("reject", "%s gave up after %d restarts: %v", ev.name, nbad, err)
+					case err != nil:
+						c.Event(fmt.Sprintf("gave_up_after_zero_mask_run/%d", nbad), 1)
+					default:
+						c.Event(fmt.Sprintf("survived_zero_mask_run/%d", nbad), 1)
+						if judgeEnc(c, o, ev, ct, kgood, got, m) {
+							if pt, ok := o.decrypt(c, "ciphertext after the run", got, matched(ev.layout)); !ok || !bytes.Equal(pt, m) {
+								if !c.Failed() {
+									c.Fail("reject", "%s: the ciphertext made after %d restarts does not decrypt to the message", ev.name, nbad)
+								}
+							}
+						}
+					}
+				}
+				c.End()
+			}
 		}
 	}
 
